@@ -73,6 +73,10 @@ def _finalize_leftovers(ctx, loop):
     loop._scheduled.clear()
     loop.graveyard.clear()
     gc.collect()
+    # a scenario may call simulate() several times in one run (one simulated execution per generated case): only the
+    # teardown above is silent, the run's log and choice streams go on afterwards
+    ctx.log.frozen = False
+    ctx.choices.frozen = False
 
 
 TICK = 1.0 / 1024
